@@ -346,4 +346,14 @@ example : (Compose.Ranges.freq (⟨⟨1, 2, 3⟩, ⟨1, 3, 2⟩⟩ : Steps2D ℝ
 
 example : (Compose.Ranges.sumDiff (⟨⟨1, 2, 3⟩, ⟨0, 1, 4⟩⟩ : Steps2D ℝ)).toFrequencySpace.y.n = 4 := rfl
 
+/-- non-vacuity of the outcome hypotheses (`hjs`, `hJ`, `hq`): for the concrete unpoled KTP setup
+`Compose.exGrid` (explicit idler, 775 → 1500 + 1603 nm) the spectrum object (Simpson-50), the
+joint-spectrum view and the Simpson rule all exist over ℝ (`Compose.grid_hypotheses_satisfiable`
+shows the same for every unpoled explicit-idler setup with `0 ≠ λ_p < λ_s`) -/
+example : ∃ js J q, Compose.jointSpectrum Compose.exGrid 50 = .ok js ∧ Compose.jsetup Compose.exGrid = .ok J ∧
+    (Compose.simpsonRule 50 : Outcome (List (ℝ × ℝ) × ℝ)) = .ok q := Compose.exGrid_available
+
+/-- … and so does the spectrum object of the exchanged setup (idler-singles route) -/
+example : ∃ sw, Compose.jointSpectrum Compose.exGrid.swap 50 = .ok sw := Compose.exGrid_swap_available
+
 end Spdc.Props.C08
